@@ -293,6 +293,21 @@ func init() {
 		return nil, false
 	}
 	I["strings.Repeat"] = func(c *icall) ([]*State, bool) {
+		if cnt := c.args[1].(IntV); !cnt.C {
+			// a small symbolic count: fork over 0..4 (larger counts are outside the encoding)
+			var conds []string
+			var vals []StrV
+			for k := 0; k <= 4; k++ {
+				conds = append(conds, tEq(cnt.T, fmt.Sprint(k)))
+				r := litStr("")
+				for i := 0; i < k; i++ {
+					r = strConcat(r, c.str(0))
+				}
+				vals = append(vals, r)
+			}
+			c.s.Overflow = append(c.s.Overflow, "(or (< "+cnt.T+" 0) (> "+cnt.T+" 4))")
+			return c.forkVals(conds, vals)
+		}
 		n := concreteInt(c.args[1], "strings.Repeat count")
 		r := litStr("")
 		for i := 0; i < n; i++ {
@@ -322,6 +337,42 @@ func init() {
 			// fork on which positions hold the separator (first max-1 occurrences)
 			ch := strconv.Itoa(int(sep.S[0]))
 			return c.splitChars(sc, ch, limit)
+		}
+		// an opaque string that is syntactically a concatenation: if no symbolic leaf contains the
+		// separator the split is structural (pieces are the very terms that were concatenated)
+		if s.K == SOpaque && limit <= 0 {
+			leaves := flattenConcat(s.T)
+			if len(leaves) > 1 {
+				var conds []string
+				for _, l := range leaves {
+					if !strings.HasPrefix(l, "\"") {
+						conds = append(conds, tNot("(str.contains "+l+" "+smtStrLit(sep.S)+")"))
+					}
+				}
+				structural := tAnd(conds...)
+				if !c.w.feasible(c.s, tNot(structural)) {
+					var pieces []StrV
+					cur := litStr("")
+					for _, l := range leaves {
+						if strings.HasPrefix(l, "\"") {
+							lit := parseSMTString(l)
+							segs := strings.Split(lit, sep.S)
+							for i, sg := range segs {
+								if i > 0 {
+									pieces = append(pieces, cur)
+									cur = litStr("")
+								}
+								cur = strConcat(cur, litStr(sg))
+							}
+						} else {
+							cur = strConcat(cur, opaqueStr(l))
+						}
+					}
+					pieces = append(pieces, cur)
+					c.set(strSliceVal(c.s, pieces))
+					return nil, false
+				}
+			}
 		}
 		// opaque: n pieces, n in 1..max; pieces contain no separator except (n==max) the last one may
 		var conds []string
@@ -622,7 +673,7 @@ func init() {
 	}
 }
 
-var splitMax = 3
+var splitMax = 4
 
 func intToStr(n IntV) StrV {
 	if n.C {
